@@ -13,14 +13,35 @@ def _repo_src():
     return next((p for p in sys.path if p.endswith("/src") and os.path.isdir(os.path.join(p, "nanoemoji"))), "/repo/src")
 
 
-def gen_max_color(rng):
-    fmt = rng.choice(["glyf_colr_1", "glyf_colr_1", "glyf_colr_0", "picosvg"])
-    glyphs = e2e.gen_glyphset(rng, n_glyphs=rng.randint(1, 3), gradients=fmt != "glyf_colr_0", groups=fmt == "glyf_colr_1")
+def gen_max_color(rng, i=None):
+    # stratified by case index: every run of >= 8 cases holds COLRv1 / COLRv0 / OT-SVG inputs,
+    # small and larger glyph sets, with and without a shape shared by non-adjacent glyphs
+    if i is None:
+        i = rng.randrange(8)
+    fmt = ["glyf_colr_1", "picosvg", "glyf_colr_0", "glyf_colr_1", "picosvg", "glyf_colr_1", "glyf_colr_0", "picosvg"][i % 8]
+    n_glyphs = [4, 3, 3, 1, 4, 3, 4, 2][i % 8]
+    share = [True, False, True, False, True, False, False, False][i % 8]
+    glyphs = e2e.gen_glyphset(rng, n_glyphs=n_glyphs, gradients=fmt != "glyf_colr_0", groups=fmt == "glyf_colr_1")
+    if len(glyphs) >= 3 and share:
+        # the first and the last glyph share a shape that the ones in between do not have
+        # (OT-SVG keeps sharing glyphs in one document: the glyph order must change)
+        sh = glyphs[0].items[0]
+        if isinstance(sh, e2e.Shape) and glyphs[0].viewbox == glyphs[-1].viewbox:
+            glyphs[-1].items.append(e2e.Shape(list(sh.pts), e2e.Solid(e2e._rgb(rng)), 1.0))
+    # codepoints whose glyph names (a, g_30, A, g_1f600 ...) need not sort like the input order
+    pool = [0x30, 0x61, 0x41, 0x7A, 0x39, 0x2764, 0x1F600, 0x1F601, 0xE000, 0xE001]
+    cps = rng.sample(pool, len(glyphs))
+    if len(glyphs) >= 3:
+        from nanoemoji.glyph import glyph_name
+
+        # input order deliberately unlike glyph-name order
+        cps.sort(key=lambda c: glyph_name((c,)), reverse=True)
+        cps[0], cps[1] = cps[1], cps[0]
     for i, g in enumerate(glyphs):
-        g.codepoints = rng.choice([(0x1F600 + i,), (0xE000 + i,)])
+        g.codepoints = (cps[i],)
     return {
         "glyphs": glyphs,
-        "overrides": dict(color_format=fmt, output_file="in.ttf", keep_glyph_names=rng.random() < 0.5),
+        "overrides": dict(color_format=fmt, output_file="in.ttf", keep_glyph_names=rng.random() < 0.5, _layout=len(glyphs) >= 3 and i % 8 in (0, 2, 5, 6)),
         "bitmaps": rng.random() < 0.35,
         "keep_names": rng.random() < 0.5,
     }
@@ -29,8 +50,30 @@ def gen_max_color(rng):
 def run_maximum_color(glyphs, overrides, bitmaps, keep_names):
     from fontTools import ttLib
 
+    overrides = dict(overrides)
+    layout = overrides.pop("_layout", False)
     cfg = e2e.default_config(**overrides)
     ufo, font_in, inputs, data = e2e.build(glyphs, cfg)
+    if layout:
+        # kerning and mark attachment between the colour glyphs themselves: the last glyph is
+        # the mark, the others are bases with pairwise different anchors
+        from fontTools.feaLib.builder import addOpenTypeFeaturesFromString
+
+        cm = font_in.getBestCmap()
+        names = [cm[g.codepoints[0]] for g in glyphs]
+        bases, mark = names[:-1], names[-1]
+        fea = f"markClass {mark} <anchor 10 20> @TOP;\nfeature mark {{\n"
+        for i, b in enumerate(bases):
+            fea += f"  pos base {b} <anchor {100 + 37 * i} {500 + 11 * i}> mark @TOP;\n"
+        fea += "} mark;\nfeature kern {\n"
+        for i, b in enumerate(bases):
+            fea += f"  pos {b} {bases[(i + 1) % len(bases)]} {-20 - 7 * i};\n"
+        fea += "} kern;\n"
+        addOpenTypeFeaturesFromString(font_in, fea)
+        buf = io.BytesIO()
+        font_in.save(buf)
+        data = buf.getvalue()
+        font_in = ttLib.TTFont(io.BytesIO(data), lazy=False)
     with tempfile.TemporaryDirectory(prefix="verif_max_") as d:
         src = os.path.join(d, "in.ttf")
         open(src, "wb").write(data)
@@ -38,14 +81,64 @@ def run_maximum_color(glyphs, overrides, bitmaps, keep_names):
         if bitmaps:
             cmd.append("--bitmaps")
         cmd.append(src)
-        env = dict(os.environ, PYTHONPATH=_repo_src(), PATH="/venv/bin:" + os.environ.get("PATH", ""))
+        env = dict(os.environ, PYTHONPATH=_repo_src(), PATH="/venv/bin:" + os.environ.get("PATH", ""), SOURCE_DATE_EPOCH="1600000000", PYTHONHASHSEED="1")
         r = subprocess.run(cmd, cwd=d, env=env, capture_output=True, text=True, timeout=900)
-        out = {"exit": r.returncode, "stderr": (r.stdout[-1500:] + r.stderr[-1500:]), "cfg": cfg, "font_in": font_in, "font_out": None}
+        out = {"exit": r.returncode, "stderr": (r.stdout[-1500:] + r.stderr[-1500:]), "cfg": cfg, "font_in": font_in, "font_out": None, "same_bytes_other_hash_seed": None}
         if r.returncode == 0:
             outs = [f for f in os.listdir(os.path.join(d, "b")) if f in ("Font.ttf", "AnEmojiFamily.ttf")]
             if outs:
-                out["font_out"] = ttLib.TTFont(io.BytesIO(open(os.path.join(d, "b", outs[0]), "rb").read()), lazy=False)
+                data1 = open(os.path.join(d, "b", outs[0]), "rb").read()
+                out["font_out"] = ttLib.TTFont(io.BytesIO(data1), lazy=False)
+                # the same pipeline in a fresh build directory under another hash seed
+                same = True
+                # (an OT-SVG input takes the COLR-donation path, which handles sets of glyph
+                # names: two more seeds there)
+                for k in range(1 if "COLR" in font_in else 3):
+                    bk = os.path.join(d, f"b{k + 2}")
+                    cmd2 = [c if c != os.path.join(d, "b") else bk for c in cmd]
+                    r2 = subprocess.run(cmd2, cwd=d, env=dict(env, PYTHONHASHSEED=str(2 + 31 * k + len(data1) % 997)), capture_output=True, text=True, timeout=900)
+                    p2 = os.path.join(bk, outs[0])
+                    same = same and r2.returncode == 0 and os.path.exists(p2) and open(p2, "rb").read() == data1
+                out["same_bytes_other_hash_seed"] = same
         return out
+
+
+def layout_facts_by_codepoint(font):
+    """mark attachment and pair kerning of GPOS keyed by codepoints (glyph names and ids may
+    change): {("base", cp, mark class): anchor, ("mark", cp): (class, anchor), ("kern", cp1, cp2): value}"""
+    if "GPOS" not in font:
+        return {}
+    rev = {}
+    for cp, n in font.getBestCmap().items():
+        rev.setdefault(n, cp)
+    facts = {}
+    anchor = lambda a: None if a is None else (a.XCoordinate, a.YCoordinate)
+    for lookup in font["GPOS"].table.LookupList.Lookup:
+        for st in lookup.SubTable:
+            if hasattr(st, "ExtSubTable"):
+                st = st.ExtSubTable
+            if lookup.LookupType in (4,) or type(st).__name__ == "MarkBasePos":
+                for i, g in enumerate(st.BaseCoverage.glyphs):
+                    for k, a in enumerate(st.BaseArray.BaseRecord[i].BaseAnchor):
+                        facts[("base", rev.get(g, g), k)] = anchor(a)
+                for i, g in enumerate(st.MarkCoverage.glyphs):
+                    mr = st.MarkArray.MarkRecord[i]
+                    facts[("mark", rev.get(g, g))] = (mr.Class, anchor(mr.MarkAnchor))
+            elif type(st).__name__ == "PairPos" and st.Format == 1:
+                for i, g in enumerate(st.Coverage.glyphs):
+                    for pv in st.PairSet[i].PairValueRecord:
+                        v1 = pv.Value1
+                        facts[("kern", rev.get(g, g), rev.get(pv.SecondGlyph, pv.SecondGlyph))] = getattr(v1, "XAdvance", None) if v1 is not None else None
+            elif type(st).__name__ == "PairPos" and st.Format == 2:
+                c1 = st.ClassDef1.classDefs if st.ClassDef1 else {}
+                c2 = st.ClassDef2.classDefs if st.ClassDef2 else {}
+                for g in st.Coverage.glyphs:
+                    for g2 in set(c2) | set(font.getGlyphOrder()):
+                        rec = st.Class1Record[c1.get(g, 0)].Class2Record[c2.get(g2, 0)]
+                        v = getattr(rec.Value1, "XAdvance", None) if rec.Value1 is not None else None
+                        if v:
+                            facts[("kern", rev.get(g, g), rev.get(g2, g2))] = v
+    return facts
 
 
 def max_color_problems(glyphs, overrides, bitmaps, keep_names, result):
@@ -73,6 +166,11 @@ def max_color_problems(glyphs, overrides, bitmaps, keep_names, result):
     if (fo["post"].formatType == 3) != (not keep_names):
         bad.append(("glyph names kept/stripped", fo["post"].formatType, keep_names))
     if bad:
+        return bad
+    li, lo = layout_facts_by_codepoint(fi), layout_facts_by_codepoint(fo)
+    if li != lo:
+        diff = sorted(k for k in set(li) | set(lo) if li.get(k) != lo.get(k))
+        bad.append(("layout meaning changed", [(k, li.get(k), lo.get(k)) for k in diff[:4]]))
         return bad
     colr_in = e2e.ColrEval(fi) if had_colr else None
     svg_in = c_e2e._otsvg_eval(fi) if not had_colr else None
@@ -115,12 +213,13 @@ def max_color_problems(glyphs, overrides, bitmaps, keep_names, result):
 # ---------------------------------------------------------------------------- C08
 
 
-def gen_determinism(rng):
+def gen_determinism(rng, i=None):
     fmt = rng.choice(["glyf_colr_1", "glyf_colr_1", "picosvg", "glyf_colr_0"])
     glyphs = e2e.gen_glyphset(rng, n_glyphs=rng.randint(2, 4), gradients=fmt != "glyf_colr_0", groups=fmt == "glyf_colr_1")
     for i, g in enumerate(glyphs):
         g.codepoints = (0x1F600 + i,)
-    vary = rng.choice(["argv-order", "hash-seed", "build-dir", "cwd", "cwd", "jobs"])
+    kinds = ["cwd", "argv-order", "hash-seed", "build-dir", "jobs", "cwd", "hash-seed", "argv-order"]
+    vary = kinds[i % len(kinds)] if i is not None else rng.choice(kinds)
     return {"glyphs": glyphs, "fmt": fmt, "vary": vary, "seed": rng.randrange(1 << 20)}
 
 
